@@ -1092,17 +1092,67 @@ def show(t, depth=0):
 # callee's _0 to the call's destination and a goto to the call's target).  Anchors are the functions the rules talk about:
 # public API, trait-impl methods, methods of the small accessor types, and every function resolved as a role.
 
+_REMAP = {}     # callee local -> caller local overrides of the splice in progress (return place -> destination local)
+
+
 def _shift_place(p, lo, bo):
     q = dict(p)
-    q["local"] = p["local"] + lo
+    q["local"] = _REMAP.get(p["local"], p["local"] + lo)
     pr = []
     for pe in p["proj"]:
         if pe["k"] == "index":
             pe = dict(pe)
-            pe["local"] = pe["local"] + lo
+            pe["local"] = _REMAP.get(pe["local"], pe["local"] + lo)
         pr.append(pe)
     q["proj"] = pr
     return q
+
+
+def _rename_local_json(x, src, dst):
+    """deep copy of a MIR JSON fragment with every place on local `src` moved to local `dst`"""
+    if isinstance(x, dict):
+        y = {k: _rename_local_json(v, src, dst) for k, v in x.items()}
+        if "local" in y and "proj" in y and y["local"] == src:
+            y["local"] = dst
+        elif x.get("k") == "index" and y.get("local") == src:
+            y["local"] = dst
+        return y
+    if isinstance(x, list):
+        return [_rename_local_json(v, src, dst) for v in x]
+    return x
+
+
+def _nrvo(fj):
+    """named-return-value form: a body that builds its result in one local x and ends with `_0 = move x` writes to the
+    return place directly (so that, once spliced, the caller's destination IS the container the callee filled)"""
+    cand = None
+    n = 0
+    for b in fj["blocks"]:
+        if b["cleanup"]:
+            continue
+        for st in b["stmts"]:
+            if st["k"] in ("assign", "setdiscr") and st["lhs"]["local"] == 0:
+                n += 1
+                rv = st.get("rv")
+                if st["k"] == "assign" and not st["lhs"]["proj"] and rv["k"] == "use" and rv["op"]["k"] == "move" and \
+                        not rv["op"]["place"]["proj"] and rv["op"]["place"]["local"] > fj["arg_count"]:
+                    cand = rv["op"]["place"]["local"]
+        t = b["term"]
+        if t["k"] == "call" and t.get("dest") is not None and t["dest"]["local"] == 0:
+            n += 1
+    if n != 1 or cand is None or fj["locals"][cand]["ty"] != fj["locals"][0]["ty"]:
+        return fj
+    out = dict(fj)
+    blocks = []
+    for b in fj["blocks"]:
+        nb = dict(b)
+        nb["stmts"] = [_rename_local_json(st, cand, 0) for st in b["stmts"]
+                       if not (st["k"] == "assign" and st["lhs"]["local"] == 0 and not st["lhs"]["proj"])]
+        nb["term"] = _rename_local_json(b["term"], cand, 0)
+        blocks.append(nb)
+    out["blocks"] = blocks
+    out["debug"] = [_rename_local_json(d, cand, 0) for d in fj["debug"]]
+    return out
 
 
 def _shift_operand(o, lo, bo):
@@ -1167,10 +1217,15 @@ def inline_body(crate, bj, inlinable, depth=0, _stack=()):
             c = Callee(t["func"]["fn"])
             bp = c.body_path
             if bp and bp in inlinable and bp != bj["path"] and bp not in _stack:
-                fj = inline_body(crate, inlinable[bp], inlinable, depth + 1, _stack + (bj["path"],))
+                fj = _nrvo(inline_body(crate, inlinable[bp], inlinable, depth + 1, _stack + (bj["path"],)))
                 if len(t["args"]) == fj["arg_count"]:
                     lo = len(locals_)
                     bo = len(blocks)
+                    _REMAP.clear()
+                    direct = not t["dest"]["proj"] and t["dest"]["local"] > bj["arg_count"] and \
+                        locals_[t["dest"]["local"]]["ty"] == fj["locals"][0]["ty"]
+                    if direct:
+                        _REMAP[0] = t["dest"]["local"]
                     locals_.extend(fj["locals"])
                     for d in fj["debug"]:
                         if "local" in d["at"]:
@@ -1203,13 +1258,15 @@ def inline_body(crate, bj, inlinable, depth=0, _stack=()):
                                 nb["stmts"].append(st)
                         ft = fb["term"]
                         if ft["k"] == "return":
-                            nb["stmts"].append({"k": "assign", "lhs": t["dest"],
-                                                "rv": {"k": "use", "op": {"k": "move", "place": {"local": lo, "proj": [], "ty": fj["locals"][0]["ty"]}}},
-                                                "span": ft["span"], "exp": ft.get("exp", False)})
+                            if not direct:
+                                nb["stmts"].append({"k": "assign", "lhs": t["dest"],
+                                                    "rv": {"k": "use", "op": {"k": "move", "place": {"local": lo, "proj": [], "ty": fj["locals"][0]["ty"]}}},
+                                                    "span": ft["span"], "exp": ft.get("exp", False)})
                             nb["term"] = {"k": "goto", "target": t["target"], "span": ft["span"], "exp": ft.get("exp", False)}
                         else:
                             nb["term"] = _shift_term(ft, lo, bo)
                         blocks.append(nb)
+                    _REMAP.clear()
                     changed = True
         bi += 1
     if not changed:
